@@ -262,65 +262,80 @@ Qed.
 
 (* ------------------------------------------------------------------ E7: re-indentation *)
 
+Definition sym_is_hash (c : sym) : bool := match c with Hash => true | _ => false end.
+
 Section Reindent.
+  Variable W : nat -> Prop.
   Variable f : nat -> nat.
-  Hypothesis f_mono : forall a b, a < b -> f a < f b.
+  Hypothesis f_mono : forall a b, W a -> W b -> a < b -> f a < f b.
+  Hypothesis W_zero : W 0.
   Hypothesis f_zero : f 0 = 0.
 
-  Lemma f_le : forall a b, a <= b -> f a <= f b.
-  Proof. intros a b H. destruct (Nat.eq_dec a b) as [->|Hn]; [lia|]. assert (a < b) by lia. apply f_mono in H0. lia. Qed.
+  Lemma f_le : forall a b, W a -> W b -> a <= b -> f a <= f b.
+  Proof. intros a b Wa Wb H. destruct (Nat.eq_dec a b) as [->|Hn]; [lia|]. assert (a < b) as L by lia. pose proof (f_mono a b Wa Wb L). lia. Qed.
 
-  Lemma f_leb : forall a b, (f a <=? f b) = (a <=? b).
+  Lemma f_leb : forall a b, W a -> W b -> (f a <=? f b) = (a <=? b).
   Proof.
-    intros. destruct (a <=? b) eqn:E.
+    intros a b Wa Wb. destruct (a <=? b) eqn:E.
     - apply Nat.leb_le in E. apply Nat.leb_le. now apply f_le.
     - apply Nat.leb_gt in E. apply Nat.leb_gt. now apply f_mono.
   Qed.
 
-  Lemma f_ltb : forall a b, (f a <? f b) = (a <? b).
+  Lemma f_ltb : forall a b, W a -> W b -> (f a <? f b) = (a <? b).
   Proof.
-    intros. unfold Nat.ltb. destruct (S a <=? b) eqn:E.
-    - apply Nat.leb_le in E. apply Nat.leb_le. assert (a < b) by lia. apply f_mono in H. lia.
-    - apply Nat.leb_gt in E. apply Nat.leb_gt. assert (b <= a) by lia. apply f_le in H. lia.
+    intros a b Wa Wb. unfold Nat.ltb. destruct (S a <=? b) eqn:E.
+    - apply Nat.leb_le in E. apply Nat.leb_le. assert (a < b) as L by lia. pose proof (f_mono a b Wa Wb L). lia.
+    - apply Nat.leb_gt in E. apply Nat.leb_gt. assert (b <= a) as L by lia. pose proof (f_le b a Wb Wa L). lia.
   Qed.
 
-  Lemma f_eqb : forall a b, (f a =? f b) = (a =? b).
+  Lemma f_eqb : forall a b, W a -> W b -> (f a =? f b) = (a =? b).
   Proof.
-    intros. destruct (a =? b) eqn:E.
+    intros a b Wa Wb. destruct (a =? b) eqn:E.
     - apply Nat.eqb_eq in E. subst. apply Nat.eqb_refl.
     - apply Nat.eqb_neq in E. apply Nat.eqb_neq. intros H.
       destruct (Nat.lt_ge_cases a b) as [L|L].
-      + apply f_mono in L. lia.
-      + assert (b < a) by lia. apply f_mono in H0. lia.
+      + pose proof (f_mono a b Wa Wb L). lia.
+      + assert (b < a) as L2 by lia. pose proof (f_mono b a Wb Wa L2). lia.
   Qed.
 
   Lemma top_map : forall stk, top (map f stk) = f (top stk).
   Proof. destruct stk; cbn; [now rewrite f_zero | reflexivity]. Qed.
 
-  Lemma count_above_map : forall ind stk, count_above (f ind) (map f stk) = count_above ind stk.
-  Proof. induction stk as [|l r IH]; cbn; [reflexivity|]. rewrite f_leb. destruct (l <=? ind); [reflexivity | now rewrite IH]. Qed.
+  Lemma top_W : forall stk, Forall W stk -> W (top stk).
+  Proof. intros stk H. destruct stk; cbn; [exact W_zero | now inversion H]. Qed.
 
-  Lemma pop_above_map : forall ind stk, pop_above (f ind) (map f stk) = map f (pop_above ind stk).
+  Lemma count_above_map : forall ind stk, W ind -> Forall W stk -> count_above (f ind) (map f stk) = count_above ind stk.
   Proof.
-    induction stk as [|l r IH]; cbn [map pop_above]; [reflexivity|]. rewrite f_leb.
-    destruct (l <=? ind); [reflexivity|].
-    destruct r as [|l2 r2]; cbn [map]; [now rewrite f_zero | exact IH].
+    induction stk as [|l r IH]; intros Wi Hs; cbn; [reflexivity|]. inversion Hs; subst.
+    rewrite f_leb by assumption. destruct (l <=? ind); [reflexivity | now rewrite IH].
+  Qed.
+
+  Lemma pop_above_map : forall ind stk, W ind -> Forall W stk ->
+    pop_above (f ind) (map f stk) = map f (pop_above ind stk) /\ Forall W (pop_above ind stk).
+  Proof.
+    induction stk as [|l r IH]; intros Wi Hs; cbn [map pop_above]; [split; [reflexivity | constructor]|].
+    inversion Hs; subst. rewrite f_leb by assumption.
+    destruct (l <=? ind); [split; [reflexivity | exact Hs]|].
+    destruct r as [|l2 r2]; cbn [map]; [split; [now rewrite f_zero | constructor; [exact W_zero | constructor]] | now apply IH].
   Qed.
 
   Lemma map_err_repeat : forall n, map (map_err f) (repeat (T TDedent) n) = repeat (T TDedent) n.
   Proof. induction n; cbn; [reflexivity | now rewrite IHn]. Qed.
 
-  Lemma indent_events_map : forall ind stk e stk',
+  Lemma indent_events_map : forall ind stk e stk', W ind -> Forall W stk ->
     indent_events ind stk = (e, stk') ->
-    indent_events (f ind) (map f stk) = (map (map_err f) e, map f stk').
+    indent_events (f ind) (map f stk) = (map (map_err f) e, map f stk') /\ Forall W stk'.
   Proof.
-    intros ind stk e stk' H. unfold indent_events in *. rewrite top_map, !f_ltb.
+    intros ind stk e stk' Wi Hs H. unfold indent_events in *. pose proof (top_W stk Hs) as Wt.
+    rewrite top_map, !f_ltb by assumption.
     destruct (top stk <? ind).
-    - inversion H; subst. reflexivity.
+    - inversion H; subst. split; [reflexivity | now constructor].
     - destruct (ind <? top stk).
-      + inversion H; subst. rewrite pop_above_map, top_map, f_eqb, count_above_map.
-        rewrite map_app, map_err_repeat. destruct (ind =? top (pop_above ind stk)); reflexivity.
-      + inversion H; subst. reflexivity.
+      + inversion H; subst. destruct (pop_above_map ind stk Wi Hs) as [Hp Wp].
+        rewrite Hp, top_map, f_eqb, count_above_map by (auto using top_W).
+        rewrite map_app, map_err_repeat. split; [|exact Wp].
+        destruct (ind =? top (pop_above ind stk)); reflexivity.
+      + inversion H; subst. split; [reflexivity | exact Hs].
   Qed.
 
   Lemma il_step_no_inconsistent : forall c d e m, il_step c d = (e, m) -> map (map_err f) e = e.
@@ -370,11 +385,11 @@ Section Reindent.
   Definition mode_sim (m m' : mode) : Prop := m = m' \/ exists i j, m = LS i /\ m' = LS j.
 
   Lemma walk_reindent_line : forall l l' m stk e m1 s1,
-    no_nl l -> reindent_line f l l' -> line_begin m ->
+    no_nl l -> reindent_line W f l l' -> line_begin m -> Forall W stk ->
     walk l m stk = (e, m1, s1) ->
-    exists m1', walk l' m (map f stk) = (map (map_err f) e, m1', map f s1) /\ mode_sim m1 m1'.
+    exists m1', walk l' m (map f stk) = (map (map_err f) e, m1', map f s1) /\ mode_sim m1 m1' /\ Forall W s1.
   Proof.
-    intros l l' m stk e m1 s1 Hnl (ws & ws' & body & -> & -> & Hws & Hws' & Hbody & Hwidth) Hm Hw.
+    intros l l' m stk e m1 s1 Hnl (ws & ws' & body & -> & -> & Hws & Hws' & Hbody) Hm HW Hw.
     rewrite walk_app, walk_blanks in Hw by exact Hws. rewrite walk_app, walk_blanks by exact Hws'.
     assert (Hnb : no_nl body).
     { unfold no_nl in *. rewrite forallb_app in Hnl. now apply andb_true_iff in Hnl as [_ ?]. }
@@ -382,43 +397,43 @@ Section Reindent.
     - (* at a line start: the indentation counter is f-related *)
       cbn in Hm. subst i. cbn [Nat.add] in *.
       destruct body as [|c b].
-      + cbn [walk] in *. inversion Hw; subst. eexists. split; [reflexivity|]. right. now do 2 eexists.
+      + cbn [walk] in *. inversion Hw; subst. eexists. split; [reflexivity|]. split; [right; now do 2 eexists | exact HW].
       + cbn [walk] in Hw |- *.
         assert (Hcn : is_nl c = false).
         { unfold no_nl in Hnb. cbn [forallb] in Hnb. apply andb_true_iff in Hnb as [Hc _].
           destruct (is_nl c); [discriminate Hc | reflexivity]. }
         assert (Hb : no_nl b).
         { unfold no_nl in *. cbn [forallb] in Hnb. now apply andb_true_iff in Hnb as [_ ?]. }
-        rewrite Hwidth.
-        destruct (indent_events (width ws) stk) as [e1 stk1] eqn:Hie.
-        pose proof (indent_events_map _ _ _ _ Hie) as Hie'.
-        (* split on the first symbol of the body *)
-        assert (Hcase : c = Hash \/
-                 (trans c (LS (width ws)) stk = (let '(e2, m') := il_step c 0 in (e1 ++ e2, m', stk1)) /\
-                  trans c (LS (f (width ws))) (map f stk) =
-                    (let '(e2, m') := il_step c 0 in (map (map_err f) e1 ++ e2, m', map f stk1)))).
-        { destruct c; try discriminate Hbody; try discriminate Hcn; [now left | | | | | |];
-            right; cbn [trans]; rewrite Hie, Hie'; split; reflexivity. }
-        destruct Hcase as [->|[Ht Ht']].
-        * cbn [trans] in Hw |- *.
+        destruct (sym_is_hash c) eqn:Hh.
+        * destruct c; try discriminate Hh. cbn [trans] in Hw |- *.
           destruct (walk_stackless b CL I Hb) as (e2 & m2 & Hwb & He2 & _).
           rewrite Hwb in Hw. rewrite Hwb. inversion Hw; subst.
-          eexists. split; [|now left]. cbn [app]. now rewrite He2.
-        * rewrite Ht in Hw. rewrite Ht'. clear Ht Ht'.
+          eexists. split; [|split; [now left | exact HW]]. cbn [app]. now rewrite He2.
+        * assert (Hcode : is_blank c = false /\ W (width ws) /\ width ws' = f (width ws)).
+          { destruct c; try discriminate Hh; exact Hbody. }
+          destruct Hcode as (Hblank & Wws & Hwidth). rewrite Hwidth.
+          destruct (indent_events (width ws) stk) as [e1 stk1] eqn:Hie.
+          destruct (indent_events_map _ _ _ _ Wws HW Hie) as [Hie' HW1].
+          assert (Ht : trans c (LS (width ws)) stk = (let '(e2, m') := il_step c 0 in (e1 ++ e2, m', stk1)) /\
+                       trans c (LS (f (width ws))) (map f stk) =
+                         (let '(e2, m') := il_step c 0 in (map (map_err f) e1 ++ e2, m', map f stk1))).
+          { destruct c; try discriminate Hblank; try discriminate Hcn; try discriminate Hh;
+              cbn [trans]; rewrite Hie, Hie'; split; reflexivity. }
+          destruct Ht as [Ht Ht']. rewrite Ht in Hw. rewrite Ht'. clear Ht Ht'.
           destruct (il_step c 0) as [e2 m2] eqn:Hil.
           assert (Hm2 : stackless m2).
-          { destruct c; try discriminate Hcn; try discriminate Hbody; cbn [il_step] in Hil;
+          { destruct c; try discriminate Hcn; try discriminate Hblank; cbn [il_step] in Hil;
               inversion Hil; subst; exact I. }
           destruct (walk_stackless b m2 Hm2 Hb) as (e3 & m3 & Hwb & He3 & _).
           rewrite Hwb in Hw. rewrite Hwb. inversion Hw; subst.
-          eexists. split; [|now left].
+          eexists. split; [|split; [now left | exact HW1]].
           rewrite !map_app, He3, (il_step_no_inconsistent _ _ _ _ Hil). reflexivity.
     - destruct (walk_stackless body CL I Hnb) as (e2 & m2 & Hwb & He2 & _).
-      rewrite Hwb in Hw. rewrite Hwb. inversion Hw; subst. eexists. split; [|now left]. cbn [app]. now rewrite He2.
+      rewrite Hwb in Hw. rewrite Hwb. inversion Hw; subst. eexists. split; [|split; [now left | exact HW]]. cbn [app]. now rewrite He2.
     - destruct (walk_stackless body (IL d) I Hnb) as (e2 & m2 & Hwb & He2 & _).
-      rewrite Hwb in Hw. rewrite Hwb. inversion Hw; subst. eexists. split; [|now left]. cbn [app]. now rewrite He2.
+      rewrite Hwb in Hw. rewrite Hwb. inversion Hw; subst. eexists. split; [|split; [now left | exact HW]]. cbn [app]. now rewrite He2.
     - destruct (walk_stackless body (CI d) I Hnb) as (e2 & m2 & Hwb & He2 & _).
-      rewrite Hwb in Hw. rewrite Hwb. inversion Hw; subst. eexists. split; [|now left]. cbn [app]. now rewrite He2.
+      rewrite Hwb in Hw. rewrite Hwb. inversion Hw; subst. eexists. split; [|split; [now left | exact HW]]. cbn [app]. now rewrite He2.
   Qed.
 
   Lemma trans_nl_sim : forall m m' stk e m1 s1, mode_sim m m' ->
@@ -439,29 +454,30 @@ Section Reindent.
   Lemma closing_map : forall stk, closing (map f stk) = map (map_err f) (closing stk).
   Proof. intros. unfold closing. rewrite map_length, map_app, map_err_repeat. reflexivity. Qed.
 
-  Lemma scan_from_reindented : forall s s', reindented f s s' ->
-    forall m stk, line_begin m ->
+  Lemma scan_from_reindented : forall s s', reindented W f s s' ->
+    forall m stk, line_begin m -> Forall W stk ->
     scan_from s' m (map f stk) = map (map_err f) (scan_from s m stk).
   Proof.
-    induction 1 as [l l' Hnl Hrl | l l' r r' Hnl Hrl Hrest IH]; intros m stk Hm.
+    induction 1 as [l l' Hnl Hrl | l l' r r' Hnl Hrl Hrest IH]; intros m stk Hm HW.
     - unfold scan_from. destruct (walk l m stk) as [[e m1] s1] eqn:Hw.
-      destruct (walk_reindent_line _ _ _ _ _ _ _ Hnl Hrl Hm Hw) as (m1' & Hw' & _).
+      destruct (walk_reindent_line _ _ _ _ _ _ _ Hnl Hrl Hm HW Hw) as (m1' & Hw' & _).
       rewrite Hw'. now rewrite map_app, closing_map.
     - rewrite !scan_from_app.
       destruct (walk l m stk) as [[e m1] s1] eqn:Hw.
-      destruct (walk_reindent_line _ _ _ _ _ _ _ Hnl Hrl Hm Hw) as (m1' & Hw' & Hsim).
+      destruct (walk_reindent_line _ _ _ _ _ _ _ Hnl Hrl Hm HW Hw) as (m1' & Hw' & Hsim & HW1).
       rewrite Hw'. rewrite map_app. f_equal.
       change (Nl :: r') with ([Nl] ++ r'). change (Nl :: r) with ([Nl] ++ r).
       rewrite !scan_from_app. cbn [walk].
       destruct (trans Nl m1 s1) as [[e2 m2] s2] eqn:Ht.
       destruct (trans_nl_sim _ _ _ _ _ _ Hsim Ht) as [Ht' Hlb].
-      rewrite Ht'. rewrite !app_nil_r, map_app. f_equal. apply IH. exact Hlb.
+      pose proof (trans_nl_line_start _ _ _ _ _ Ht) as [_ ->].
+      rewrite Ht'. rewrite !app_nil_r, map_app. f_equal. apply IH; assumption.
   Qed.
 
-  Lemma edit_reindent : forall s s', reindented f s s' -> scan s' = map (map_err f) (scan s).
+  Lemma edit_reindent : forall s s', reindented W f s s' -> scan s' = map (map_err f) (scan s).
   Proof.
     intros s s' H. unfold scan.
-    change [0] with (map f [0]) at 1 || (replace [0] with (map f [0]) at 1 by (cbn; now rewrite f_zero)).
-    apply scan_from_reindented; [exact H | reflexivity].
+    replace [0] with (map f [0]) at 1 by (cbn; now rewrite f_zero).
+    apply scan_from_reindented; [exact H | reflexivity | constructor; [exact W_zero | constructor]].
   Qed.
 End Reindent.
